@@ -56,10 +56,10 @@ type Scenario struct {
 	// goes on from the server's address with another port (and from other addresses): the reading
 	// client must report its UDP timeout on time (0 = never).
 	QuietAtMS int `json:"quiet_at_ms,omitempty"`
-	IdleMS     int           `json:"idle_ms"`
-	ReadMS     int           `json:"read_ms"`
-	CheckMS    int           `json:"check_ms"`
-	Packets    int           `json:"packets"`
+	IdleMS    int `json:"idle_ms"`
+	ReadMS    int `json:"read_ms"`
+	CheckMS   int `json:"check_ms"`
+	Packets   int `json:"packets"`
 }
 
 func gen(seed uint64, tier string) Scenario {
@@ -736,8 +736,8 @@ func init() {
 	f := core.Register("C19", gen, run, shrink)
 	f.Real = []string{"gortsplib.Server (serverUDPListener, ServerSession, ServerConn), gortsplib.Client (clientUDPListener)"}
 	f.Simulated = []string{"UDP/TCP sockets incl. forged source addresses (simnet.WriteFromTo) and IPv4-mapped source forms", "clock (fake)", "spoofing node and intruding control connections (harness code)"}
-	f.Excluded = []string{"UDP-multicast", "IP-layer zones"}
-	f.Rule = "scenario = role (play | record) x transport (udp | tcp) x AnyPortEnable x source-address form (4-byte | IPv4-mapped 16-byte) x 1..8 bursts of forged datagrams (valid RTP for the session / RTCP sender reports) to the receiving side's RTP or RTCP port from {another IP, another IP with the legitimate port, the legitimate IP with another port, the IPv4-mapped form of another IP} x 0..4 foreign control requests carrying the stolen session id (7 methods) from another IP, or from the same IP on another connection while the session streams interleaved, in the set-up / streaming / paused states x optional silent disappearance of the legitimate peer while the spoofer goes on; non-trivial = legitimate packets were delivered and forged datagrams reached a media socket or an intrusion was judged; distinct = distinct canonical event log"
+	f.Excluded = []string{"pkg/multicast's raw-socket platform files (stand-in binding the group address through the ListenPacket seam)", "a Transport answer with source= other than the server's address (the library's server never sends one)", "IP-layer zones"}
+	f.Rule = "scenario = role (play | record) x transport (udp | tcp | UDP-multicast reader: forged datagrams go to the group and reach the reader's and the server's multicast listeners, sources incl. the reader's address with another port) x AnyPortEnable x source-address form (4-byte | IPv4-mapped 16-byte) x 1..8 bursts of forged datagrams (valid RTP for the session / RTCP sender reports) to the receiving side's RTP or RTCP port from {another IP, another IP with the legitimate port, the legitimate IP with another port, the IPv4-mapped form of another IP} x 0..4 foreign control requests carrying the stolen session id (7 methods) from another IP, or from the same IP on another connection while the session streams interleaved, in the set-up / streaming / paused states x optional silent disappearance of the legitimate peer while the spoofer goes on; non-trivial = legitimate packets were delivered and forged datagrams reached a media socket or an intrusion was judged; distinct = distinct canonical event log"
 	f.Assumptions = []string{
 		"with AnyPortEnable the source port is relaxed by design: only forged datagrams from another IP are asserted there",
 		"a request from the creating IP on another connection is only asserted to fail while the session streams over an interleaved connection",
